@@ -1,6 +1,7 @@
 import IrVerif.Drive.Util
 import IrVerif.Model.Scope
 import IrVerif.Model.ScopeSer
+import IrVerif.Model.ScopeFunc
 /-! Protocol handler for `IrVerif.Scope` (C03 / C17).
 
 Info    = [ty|null, sh|null, doc|null]
@@ -9,6 +10,9 @@ GraphP  = {"inputs":[[name,Info]], "inits":[[name,data,ty,sh]], "vinfo":[[name,I
 World   = {"vals":[ValueS], "tens":[[name|null,data,ty,sh]], "root":GraphT}
 GraphT  = {"id":n, "inputs":[v], "inits":[[key,v]], "nodes":[{"id":n,"graph":n|null,"i":[v|null],
            "o":[v],"g":[GraphT]}], "outputs":[v]}
+FuncP   = {"id":[domain,name,overload], "inputs":[name], "outputs":[name], "vinfo":[[name,Info]], "nodes":[NodeP]}
+ModelP  = {"p":GraphP, "funcs":[FuncP]}
+MWorld  = World + {"funcs":[[[domain,name,overload], GraphT]]}
 -/
 open Lean IrVerif.Drive
 namespace IrVerif.Drive.Scope
@@ -175,6 +179,45 @@ def serJ (w : World) : List (String × Json) :=
     [("ser_ok", toJson true), ("p", graphPJ p),
      ("tens_after", Json.arr ((List.range w1.st.nt).map fun i => tensorSJ (w1.st.tens i)).toArray)]
 
+def parseFId (j : Json) : Except String FId := do
+  match ← arrOf j with
+  | [a, b, c] => return ⟨← (fromJson? a : Except String String), ← (fromJson? b : Except String String),
+      ← (fromJson? c : Except String String)⟩
+  | _ => throw "function id: expected [domain, name, overload]"
+
+def fidJ (i : FId) : Json := Json.arr #[Json.str i.domain, Json.str i.name, Json.str i.overload]
+
+def parseFuncP (j : Json) : Except String FuncP := do
+  let id ← parseFId (j.getObjValD "id")
+  let ins ← getStrs j "inputs"
+  let outs ← getStrs j "outputs"
+  let vis ← (← getArr j "vinfo").mapM parseVInfo
+  let ns ← (← getArr j "nodes").mapM parseNodeP
+  return ⟨id, ins, outs, vis, ns⟩
+
+def funcPJ (f : FuncP) : Json :=
+  obj [("id", fidJ f.id), ("inputs", strsJ f.inputs), ("outputs", strsJ f.outputs),
+    ("vinfo", Json.arr (f.vinfo.map vinfoJ).toArray), ("nodes", Json.arr (f.nodes.map nodePJ).toArray)]
+
+def parseModelP (j : Json) : Except String ModelP := do
+  let p ← parseGraphP (j.getObjValD "p")
+  let fs ← (← getArr j "funcs").mapM parseFuncP
+  return ⟨p, fs⟩
+
+def modelPJ (m : ModelP) : Json := obj [("p", graphPJ m.graph), ("funcs", Json.arr (m.funcs.map funcPJ).toArray)]
+
+def parseMWorld (j : Json) : Except String MWorld := do
+  let w ← parseWorld j
+  let fs ← (← getArr j "funcs").mapM fun e => do
+    match ← arrOf e with
+    | [i, g] => return ((← parseFId i), (← parseGraphT g))
+    | _ => throw "function: expected [id, GraphT]"
+  return ⟨w.st, w.root, fs⟩
+
+def mworldJ (w : MWorld) : Json :=
+  obj (storeJ w.st ++ [("root", graphTJ w.root),
+    ("funcs", Json.arr (w.funcs.map fun (i, g) => Json.arr #[fidJ i, graphTJ g]).toArray)])
+
 def handle : Handler := fun m j =>
   match m with
   | "scope.deser" => some do
@@ -211,6 +254,41 @@ def handle : Handler := fun m j =>
           match deserialize p with
           | .error e => [("deser_ok", toJson false), ("err", errJ e)]
           | .ok w2 => [("deser_ok", toJson true), ("world2", worldJ w2)]
+        return obj (base ++ twice ++ rt)
+  | "scope.mdeser" => some do
+      let p ← parseModelP j
+      match deserializeM p with
+      | .error e => return obj [("ok", toJson false), ("err", errJ e)]
+      | .ok w =>
+        let extra : List (String × Json) :=
+          match serializeM w with
+          | .error _ => [("ser_ok", toJson false)]
+          | .ok (_, q) =>
+            match deserializeM q with
+            | .error _ => [("ser_ok", toJson true), ("q", modelPJ q), ("deser2_ok", toJson false)]
+            | .ok w2 =>
+              match serializeM w2 with
+              | .error _ => [("ser_ok", toJson true), ("q", modelPJ q), ("deser2_ok", toJson true),
+                  ("ser2_ok", toJson false)]
+              | .ok (_, q2) => [("ser_ok", toJson true), ("q", modelPJ q), ("deser2_ok", toJson true),
+                  ("ser2_ok", toJson true), ("q2", modelPJ q2)]
+        return obj ([("ok", toJson true), ("world", mworldJ w)] ++ extra)
+  | "scope.mser" => some do
+      let w ← parseMWorld (j.getObjValD "w")
+      match serializeM w with
+      | .error _ => return obj [("ser_ok", toJson false)]
+      | .ok (w1, p) =>
+        let base : List (String × Json) :=
+          [("ser_ok", toJson true), ("p", modelPJ p),
+           ("tens_after", Json.arr ((List.range w1.st.nt).map fun i => tensorSJ (w1.st.tens i)).toArray)]
+        let twice : List (String × Json) :=
+          match serializeM w1 with
+          | .error _ => [("ser2_ok", toJson false)]
+          | .ok (_, p2) => [("ser2_ok", toJson true), ("p2", modelPJ p2)]
+        let rt : List (String × Json) :=
+          match deserializeM p with
+          | .error e => [("deser_ok", toJson false), ("err", errJ e)]
+          | .ok w2 => [("deser_ok", toJson true), ("world2", mworldJ w2)]
         return obj (base ++ twice ++ rt)
   | _ => none
 
